@@ -144,6 +144,12 @@ def edge_cases():
         out.append({'case': {'kind': 'multipart', 'tid': 3, 'fields': c10.FIELDS[3], 'input': (b'--B\r\nContent-Disposition: form-data; name="x"\r\n\r\n' + e + b'\r\n--B--\r\n').hex()}, 'stream': 'edge'})
         out.append({'case': {'kind': 'multipart', 'tid': 3, 'fields': c10.FIELDS[3], 'input': (b'--B\r\nContent-Disposition: form-data; name=' + e + b'\r\n\r\nv\r\n--B--\r\n').hex()}, 'stream': 'edge'})
         out.append({'case': {'kind': 'percent', 'input': (b'/' + e.replace(b' ', b'')).hex()}, 'stream': 'edge'})
+    # degenerate first lines of a multipart body (the boundary is whatever the first line holds): empty, only hyphens, only CR or LF, no line end at all
+    part = b'Content-Disposition: form-data; name="x"\r\n\r\nJoe\r\n'
+    for first in (b'', b'-', b'--', b'---', b'\r', b' ', b'\x00', b'--\x00'):
+        for rest in (b'', b'\r\n', b'\r\n\r\n', b'\r\n' + part, b'\r\n' + part + first + b'--\r\n', b'\r\n' + part + first + b'\r\n' + part + first + b'--', b'\n', b'\r\n\r\n\r\n--'):
+            for tid in (1, 3):
+                out.append({'case': {'kind': 'multipart', 'tid': tid, 'fields': c10.FIELDS[tid], 'input': (first + rest).hex()}, 'stream': 'edge'})
     return out
 
 
